@@ -55,10 +55,15 @@ finally:
 st, _ = sh("git -C /repo status --porcelain --untracked-files=no")
 rc, out = sh("git -C /repo apply %s" % patch)
 assert rc == 0, out
+evf = "/verif/evidence/%s.json" % prop
+saved_ev = open(evf).read() if os.path.exists(evf) else None
 try:
     rcc, outc = sh("./check %s --tier quick" % prop, cwd="/verif")
 finally:
     sh("git -C /repo checkout -- .")
+    # the evidence file committed under /verif must come from a run on the unchanged tree
+    if saved_ev is not None:
+        open(evf, "w").write(saved_ev)
 meta["check_exit"] = rcc
 meta["check_violation_lines"] = [l for l in outc.split("\n") if l.startswith("VIOLATION") or l.startswith("UNDECIDED") or l.startswith("CHECKER")][:6]
 meta["check_detail"] = [l for l in outc.split("\n") if l.startswith("  ")][:8]
